@@ -32,11 +32,19 @@ def bool_program(rng, nvars=None, depth=None):
     depth = depth or rng.randint(2, 4)
     vs = [chr(ord("a") + i) for i in range(nvars)]
     args = ", ".join(f"{v}: bool" for v in vs)
-    if rng.random() < 0.3:
+    r = rng.random()
+    if r < 0.3:
         # with an intermediate variable shared between sub-expressions
         e1 = rand_bool_expr(rng, vs, depth - 1)
         e2 = rand_bool_expr(rng, vs + ["t"], depth - 1)
         return f"def test({args}) -> bool:\n    t = {e1}\n    return {e2}"
+    if r < 0.4:
+        # an alias of an argument / a repeated sub-expression used positively and negated
+        al = rng.choice(vs)
+        e1 = rand_bool_expr(rng, vs, max(1, depth - 2))
+        e2 = rand_bool_expr(rng, vs + ["y", "y"], depth - 1)
+        return (f"def test({args}) -> bool:\n    y = {al}\n    u = {e1}\n"
+                f"    return (({e2}) and (u or y)) or ((not u) and {rng.choice(vs)})")
     return f"def test({args}) -> bool:\n    return {rand_bool_expr(rng, vs, depth)}"
 
 
@@ -108,6 +116,13 @@ def struct_templates():
     t.append("def test(a: Qint[2], b: Qint[2], c: Qint[2]) -> bool:\n    return a < b and b < c")
     t.append("def test(a: Qint[2]) -> Qint[4]:\n    return a * a")
     t.append("def test(a: Qint[2], b: Qint[2]) -> Qint[4]:\n    return (a + b) * 2")
+    # aliases, a sub-expression next to its own negation, n-ary or under not
+    t.append("def test(a: bool, b: bool) -> bool:\n    y = a\n    return (a or y) and b")
+    t.append("def test(a: bool, b: bool, c: bool, d: bool) -> bool:\n    return ((a or b or c) and (not (a or b or c))) or d")
+    t.append("def test(a: bool, b: bool, c: bool, d: bool) -> bool:\n    return ((a or b or c) and d) ^ (not (a or b or c))")
+    t.append("def test(a: bool, b: bool, c: bool) -> bool:\n    y = a\n    z = y\n    return (z and a) ^ (y or c) ^ (a or b or z)")
+    t.append("def test(a: bool, b: bool, c: bool) -> bool:\n    t = a and b\n    return (t or c) and (not t or a) and (t ^ c)")
+    t.append("def test(a: Qint[2], b: Qint[2]) -> bool:\n    c = a\n    return (a == c) and (b > c or a > b)")
     # returning bare bits / whole arguments from every argument position
     t.append("def test(a: bool, b: bool) -> bool:\n    return a")
     t.append("def test(a: bool, b: bool) -> bool:\n    return b")
